@@ -15,6 +15,20 @@ from .facts import const_int
 
 U64 = (1 << 64) - 1
 CHECK_RX = re.compile(r"^stun_rs::common::check_buffer_boundaries$")
+# encoder contract (verified per impl by verify_encode_contract, C14 R14.4): Ok(n) => n <= len(output slice)
+ENC_SLICE_RX = re.compile(r" as stun_rs::Encode>::encode$|impl stun_rs::Encode for .*>::encode$|^stun_rs::common::fill_padding_value$")
+ENC_CTX_RX = re.compile(r" as stun_rs::attributes::EncodeAttributeValue>::encode$")
+XOR_ENC_RX = re.compile(r"^stun_rs::common::xor_encode$")
+
+
+def enc_slice_arg(path):
+    """index of the output-slice argument of a contract encoder taking the slice directly, else None"""
+    if XOR_ENC_RX.search(path):
+        return 2
+    if ENC_SLICE_RX.search(path) and not path.endswith("fill_padding_value"):
+        return 1
+    return None
+CTX_NEW_RX = re.compile(r"AttributeEncoderContext::<'\w+>::new$")
 
 
 class Lin:
@@ -63,13 +77,55 @@ def le(a, b):
 _RET_LB = {}
 
 
-def fn_return_lb(body, depth=0):
+def fn_return_lb(body, depth=0, ok_payload=False):
     """a lower bound of the unsigned integer a workspace function returns (min over the values assigned
-    to its return place; a multiply-assigned local contributes the min over its definitions)"""
-    if body.key in _RET_LB:
-        return _RET_LB[body.key]
-    _RET_LB[body.key] = 0
+    to its return place; a multiply-assigned local contributes the min over its definitions); with
+    ok_payload: of the usize inside the Ok(..) it returns (Err returns are ignored; forwarded results of
+    other workspace functions are followed)"""
+    ck = (body.key, ok_payload)
+    if ck in _RET_LB:
+        return _RET_LB[ck]
+    _RET_LB[ck] = 0
     pr = Prover(body)
+    if ok_payload:
+        vals = []
+
+        def ok_def(d, dd=0):
+            if dd > 5:
+                vals.append(0)
+                return
+            if d.kind == "assign":
+                rv = d.rv
+                if rv["k"] == "aggregate" and rv.get("adt", "").endswith("::Result"):
+                    if rv["variant_name"] == "Ok":
+                        op = rv["ops"][0]
+                        if op["k"] == "const":
+                            v = const_int(op)
+                            vals.append(v if v is not None and v >= 0 else 0)
+                        elif op["k"] == "const" or op["place"]["p"]:
+                            vals.append(0)
+                        else:
+                            lin = pr.lin_local(op["place"]["l"])
+                            vals.append(pr.lb_lin(lin, depth + 1) if lin is not None else 0)
+                    return
+                if rv["k"] == "use" and rv["op"]["k"] in ("copy", "move") and not rv["op"]["place"]["p"]:
+                    for d2 in pr.q.whole_defs(rv["op"]["place"]["l"]):
+                        ok_def(d2, dd + 1)
+                    return
+                vals.append(0)
+            elif d.kind == "call":
+                c = d.call
+                if re.search(r"FromResidual<.*>>::from_residual$", c.full) or re.search(r"from_residual$", c.callee_path):
+                    return
+                cb = body.prog.bodies.get(c.callee_key) if c.resolved else None
+                vals.append(fn_return_lb(cb, depth + 1, ok_payload=True) if cb is not None and depth < 4 else 0)
+            else:
+                vals.append(0)
+        for d in pr.q.whole_defs(0):
+            ok_def(d)
+        r = min(vals) if vals else 0
+        _RET_LB[ck] = r
+        return r
 
     def lb_local(l, seen):
         if l in seen:
@@ -110,7 +166,7 @@ def fn_return_lb(body, depth=0):
         return 0
 
     r = lb_local(0, frozenset())
-    _RET_LB[body.key] = r
+    _RET_LB[ck] = r
     return r
 
 
@@ -147,23 +203,31 @@ class Prover:
         if best is None:
             return None
         bpos = (best.block, self._idx(best))
-        fwd = self.cfg.reachable(best.block)
-        cyc = any(at[0] in self.cfg.reachable(t) for t in self.cfg.targets(at[0]))
+        if best.block == at[0]:
+            # straight-line code between the definition and the use
+            if any(o is not best and o.block == at[0] and bpos[1] < self._idx(o) < at[1] for o in ds):
+                return None
+            return best
+        # a definition invalidates only if it can execute after `best` and before `at` without passing
+        # through `best` again (a path that re-executes `best` re-establishes it)
+        cut = {best.block} if best.block != at[0] else set()
+        fwd = self.cfg.reachable_from_many(self.cfg.targets(best.block), cut_blocks=cut) if cut else self.cfg.reachable(best.block)
+        cyc = (not cut) and any(at[0] in self.cfg.reachable(t) for t in self.cfg.targets(at[0]))
         for o in ds:
             if o is best:
                 continue
             oi = self._idx(o)
             if o.block == best.block and o.block == at[0]:
-                if bpos[1] < oi < at[1] or (cyc and (oi >= at[1])):
+                if bpos[1] < oi < at[1] or (cyc and (oi >= at[1] or oi < bpos[1])):
                     return None
             elif o.block == best.block:
                 if oi > bpos[1]:
                     return None
             elif o.block == at[0]:
-                if oi < at[1] or cyc:
+                if oi < at[1]:
                     return None
             else:
-                if o.block in fwd and at[0] in self.cfg.reachable(o.block):
+                if o.block in fwd and at[0] in self.cfg.reachable(o.block, cut_blocks=cut):
                     return None
         return best
 
@@ -179,7 +243,13 @@ class Prover:
             if len(pl["p"]) == 1 and pl["p"][0]["k"] == "field" and pl["p"][0]["i"] == 0:
                 d = self.q.single_def(pl["l"])
                 if d is not None and d.kind == "assign" and d.rv["k"] == "binop" and d.rv["op"].endswith("WithOverflow"):
-                    return self.lin_rv(d.rv, depth + 1)
+                    save = self.at
+                    if self.at is not None:
+                        self.at = (d.block, self._idx(d))
+                    try:
+                        return self.lin_rv(d.rv, depth + 1)
+                    finally:
+                        self.at = save
             return Lin(0, {("place", repr(self.q.resolve_place(pl))): 1}) if self._stable_place(pl) else None
         return self.lin_local(pl["l"], depth)
 
@@ -211,10 +281,10 @@ class Prover:
                     r = self.lin_rv(rd.rv, depth + 1)
                 finally:
                     self.at = save
-                if r is not None and not any(v[0] == "multi" for v in r.t):
+                if r is not None:
                     return r
         if d is None:
-            return Lin(0, {("multi", l): 1})
+            return Lin(0, {("multi", l, self.at): 1})
         if d.kind == "arg":
             return Lin(0, {("v", l): 1})
         if d.kind == "call":
@@ -292,6 +362,59 @@ class Prover:
         if rv["k"] == "use":
             return self.fold_bool(rv["op"])
         return None
+
+    def no_def_between(self, l, p1, p2):
+        """p1 precedes p2 on every path and local l cannot be assigned between them (paths that pass p1
+        again are cut there): then l has the same value at p2 as at the latest p1"""
+        if p1 is None or p2 is None:
+            return False
+        if p1 == p2:
+            return True
+        b1, i1 = p1
+        b2, i2 = p2
+        if b1 == b2:
+            if i1 > i2:
+                return False
+        elif not self.cfg.dominates(b1, b2):
+            return False
+        ds = self.q.whole_defs(l)
+        if b1 == b2:
+            return not any(d.block == b1 and i1 <= self._idx(d) < i2 for d in ds)
+        fwd = self.cfg.reachable_from_many(self.cfg.targets(b1), cut_blocks={b1})
+        for d in ds:
+            di = self._idx(d)
+            if d.block == b1:
+                if di >= i1:
+                    return False
+            elif d.block == b2:
+                if di < i2:
+                    return False
+            elif d.block in fwd and b2 in self.cfg.reachable(d.block, cut_blocks={b1}):
+                return False
+        return True
+
+    def unify(self, a, b):
+        """rename position-tagged multi variables of b to those of a when they denote the same value"""
+        if a is None or b is None:
+            return a, b
+        ma = [v for v in a.t if v[0] == "multi"]
+        mb = [v for v in b.t if v[0] == "multi"]
+        ren = {}
+        for vb in mb:
+            for va in ma:
+                if va[1] == vb[1] and va != vb and (self.no_def_between(vb[1], vb[2], va[2]) or self.no_def_between(va[1], va[2], vb[2])):
+                    ren[vb] = va
+        if not ren:
+            return a, b
+        t = {}
+        for k, v in b.t.items():
+            k2 = ren.get(k, k)
+            t[k2] = t.get(k2, 0) + v
+        return a, Lin(b.c, t)
+
+    def le(self, a, b):
+        a, b = self.unify(a, b)
+        return le(a, b)
 
     # ------------------------------------------------------------------ upper bounds
     def ub_lin(self, lin):
@@ -417,6 +540,27 @@ class Prover:
         if depth > 4 or var[0] != "v":
             return 0
         d = self.q.single_def(var[1])
+        if d is not None and d.kind == "assign" and d.rv["k"] == "use" and d.rv["op"]["k"] in ("copy", "move"):
+            pl = d.rv["op"]["place"]
+            if pl["p"] and pl["p"][0]["k"] == "downcast" and pl["p"][0].get("name") == "Continue":
+                # payload of `callee(..)?`: lower bound of the callee's Ok payload
+                bd = self.q.single_def(pl["l"])
+                if bd is not None and bd.kind == "call" and re.search(r"as std::ops::Try>::branch$", bd.call.callee_path):
+                    cur = bd.call.args[0]
+                    for _ in range(3):
+                        if cur["k"] == "const" or cur["place"]["p"]:
+                            break
+                        cd = self.q.single_def(cur["place"]["l"])
+                        if cd is None or cd.kind != "call":
+                            break
+                        if re.search(r"Result::<.*>::map_err", cd.call.full):
+                            cur = cd.call.args[0]
+                            continue
+                        body = self.body.prog.bodies.get(cd.call.callee_key) if cd.call.resolved else None
+                        if body is not None:
+                            return fn_return_lb(body, depth + 1, ok_payload=True)
+                        break
+            return 0
         if d is None or d.kind != "call":
             return 0
         body = self.body.prog.bodies.get(d.call.callee_key) if d.call.resolved else None
@@ -619,8 +763,81 @@ class Prover:
                     else:
                         # tail position: `check(..)` returned directly or via `?` we could not follow
                         pass
+            out.extend(self.contract_facts())
+            # a fact about a sub-slice s = &root[k..] is also a fact about root: len(root) >= k + n
+            extra = []
+            for (okb, sop, n, cb) in out:
+                if sop["k"] == "const" or sop["place"]["p"]:
+                    continue
+                cur = sop
+                for _ in range(3):
+                    d = self.q.single_def(cur["place"]["l"]) if cur["k"] != "const" and not cur["place"]["p"] else None
+                    if d is None:
+                        break
+                    if d.kind == "assign" and d.rv["k"] == "use" and d.rv["op"]["k"] != "const":
+                        cur = d.rv["op"]
+                        continue
+                    if d.kind == "assign" and d.rv["k"] == "ref" and len(d.rv["place"]["p"]) == 1 and d.rv["place"]["p"][0]["k"] == "deref":
+                        cur = {"k": "copy", "place": {"l": d.rv["place"]["l"], "p": []}}
+                        continue
+                    if d.kind == "call" and re.search(r"Index(Mut)?<.*> for \[.*\]>::index(_mut)?$", d.call.callee_path):
+                        rng = self.range_of(d.call.args[1])
+                        if rng is not None and rng[0] == "RangeFrom" and rng[1] is not None:
+                            self.at = (d.block, 10 ** 6)
+                            k = self.range_of(d.call.args[1])[1]
+                            self.at = None
+                            if k is not None:
+                                extra.append((okb, d.call.args[0], n.add(k), cb))
+                    break
+            out.extend(extra)
             self._facts = out
         return self._facts
+
+    def _payload_var(self, okb, cs):
+        """the local holding the Ok payload in the Continue arm of `cs(..)?`"""
+        cur = cs
+        for _ in range(4):
+            d = cur.dest
+            users = [c for c in self.q._calls if any(a["k"] in ("copy", "move") and a["place"]["l"] == d["l"] and not a["place"]["p"] for a in c.args)]
+            if len(users) != 1:
+                return None
+            u = users[0]
+            if re.search(r"Result::<.*>::map_err", u.full):
+                cur = u
+                continue
+            if re.search(r"as std::ops::Try>::branch$", u.callee_path):
+                bl = u.dest["l"]
+                for s_ in self.body.blocks[okb]["stmts"]:
+                    if s_["k"] == "assign" and s_["rv"]["k"] == "use" and s_["rv"]["op"]["k"] in ("copy", "move"):
+                        pl = s_["rv"]["op"]["place"]
+                        if pl["l"] == bl and pl["p"] and pl["p"][0]["k"] == "downcast" and not s_["place"]["p"]:
+                            return s_["place"]["l"]
+                return None
+            return None
+        return None
+
+    def contract_facts(self):
+        out = []
+        for c in self.q._calls:
+            slice_op = None
+            si = enc_slice_arg(c.callee_path)
+            if si is not None and len(c.args) > si:
+                slice_op = c.args[si]
+            elif ENC_CTX_RX.search(c.callee_path) and len(c.args) >= 2:
+                # the slice handed to AttributeEncoderContext::new for this context
+                outs = self.q.origins(c.args[1])
+                if len(outs) == 1 and outs[0].kind == "call" and CTX_NEW_RX.search(outs[0].call.callee_path):
+                    slice_op = outs[0].call.args[2]
+            if slice_op is None:
+                continue
+            okb = self.ok_block(c)
+            if okb is None:
+                continue
+            pv = self._payload_var(okb, c)
+            if pv is None:
+                continue
+            out.append((okb, slice_op, Lin(0, {("v", pv): 1}), c.block))
+        return out
 
     def multi_ok(self, lin, fact_block, site_block, check_block=None):
         """multiply-assigned locals mentioned by `lin` must not be reassigned between fact and site"""
@@ -667,8 +884,7 @@ class Prover:
             out.append(ex)
         for (okb, sop, n, cb) in self.facts():
             if self.cfg.dominates(okb, site_block) and self.same_slice(sop, slice_op):
-                if self.multi_ok(n, okb, site_block, cb):
-                    out.append(n)
+                out.append(n)
         # a sub-slice s = &root[a..] inherits root's bounds minus a
         if depth < 3 and slice_op["k"] != "const" and not slice_op["place"]["p"]:
             d = self.q.single_def(slice_op["place"]["l"])
@@ -713,7 +929,7 @@ class Prover:
                 if idx is None:
                     return False, "index expression not linear"
                 for lb in self.min_len(c.args[0], bi):
-                    if le(idx.add(Lin(1)), lb):
+                    if self.le(idx.add(Lin(1)), lb):
                         return True, "index %r < len >= %r" % (idx, lb)
                 return False, "no length fact covers index %r" % (idx,)
             kind, a, b = rng
@@ -724,17 +940,17 @@ class Prover:
                 if b is None:
                     return False, "range end not linear"
                 if kind == "Range":
-                    if a is None or not le(a, b):
+                    if a is None or not self.le(a, b):
                         return False, "cannot show start %r <= end %r" % (a, b)
                 for lb in lbs:
-                    if le(b, lb) or (b.is_const() and b.c <= self.lb_lin(lb)):
+                    if self.le(b, lb) or (b.is_const() and b.c <= self.lb_lin(lb)):
                         return True, "end %r <= len >= %r" % (b, lb)
                 return False, "no length fact covers range end %r (facts: %s)" % (b, lbs)
             if kind == "RangeFrom":
                 if a is None:
                     return False, "range start not linear"
                 for lb in lbs:
-                    if le(a, lb):
+                    if self.le(a, lb):
                         return True, "start %r <= len >= %r" % (a, lb)
                 return False, "no length fact covers range start %r (facts: %s)" % (a, lbs)
             return False, "unsupported range " + kind
@@ -744,7 +960,7 @@ class Prover:
             if need is None:
                 return False, "unknown width"
             for lb in self.min_len(c.args[0], bi):
-                if le(Lin(need), lb) or need <= self.lb_lin(lb):
+                if self.le(Lin(need), lb) or need <= self.lb_lin(lb):
                     return True, "len >= %r >= %d" % (lb, need)
             return False, "no length fact >= %d" % need
         if site.kind == "slice-op":
@@ -758,7 +974,7 @@ class Prover:
                 mid = self.lin_op(c.args[1])
                 if mid is not None:
                     for lb in self.min_len(c.args[0], bi):
-                        if le(mid, lb):
+                        if self.le(mid, lb):
                             return True, "mid %r <= len >= %r" % (mid, lb)
                 return False, "no length fact covers mid %r" % (mid,)
         return False, "no discharge rule for " + site.kind
@@ -793,7 +1009,7 @@ class Prover:
                 if len(outs) == 1 and outs[0].kind == "rv" and outs[0].rv is not None and outs[0].rv["k"] == "unop" and outs[0].rv["op"] == "PtrMetadata":
                     sop = outs[0].rv["a"]
                     for lb in self.min_len(sop, site.block):
-                        if le(i.add(Lin(1)), lb):
+                        if self.le(i.add(Lin(1)), lb):
                             return True, "index %r < len >= %r" % (i, lb)
                     if ub is not None:
                         for lb in self.min_len(sop, site.block):
@@ -831,7 +1047,7 @@ class Prover:
                 return False, "product not bounded for %s" % tya["s"]
             if op == "Sub":
                 la, lb = self.lin_op(a), self.lin_op(b)
-                if la is not None and lb is not None and le(lb, la):
+                if la is not None and lb is not None and self.le(lb, la):
                     return True, "%r <= %r" % (lb, la)
                 if la is not None and la.is_const() and ub is not None and ub <= la.c:
                     return True, "subtrahend <= %d <= %d" % (ub, la.c)
@@ -843,3 +1059,128 @@ class Prover:
                 return True, "constant divisor %d" % d
             return False, "divisor not a non-zero constant"
         return False, "no rule for assert " + msg
+
+
+def verify_encode_contract(body):
+    """C14 R14.4: every Ok(n) an encoder returns has n <= a proven lower bound of its output slice (or is the
+    result of another contract encoder applied to (a sub-slice of) the same output).  -> list of problems"""
+    pr = Prover(body)
+    q = pr.q
+    is_ctx = bool(ENC_CTX_RX.search(body.path))
+    if body.arg_count < 2:
+        return ["unexpected signature"]
+    if is_ctx:
+        my_root = ("accessor", repr({"l": 2, "p": []}), "raw_value")
+    else:
+        si = enc_slice_arg(body.path)
+        my_root = ("arg", (si if si is not None else 1) + 1)
+
+    def root_of(op):
+        r = pr.slice_root(op)
+        if r is None:
+            return None
+        if r[0] == "place":
+            try:
+                pl = eval(r[1])
+                if pl["p"] == [{"k": "deref"}] and 1 <= pl["l"] <= body.arg_count:
+                    return ("arg", pl["l"])
+            except Exception:
+                pass
+        return r
+
+    def derives_from_mine(op, depth=0):
+        """op is my slice or a sub-slice of it"""
+        if depth > 4:
+            return False
+        r = root_of(op)
+        if r == my_root:
+            return True
+        if op["k"] == "const" or op["place"]["p"]:
+            return False
+        d = q.single_def(op["place"]["l"])
+        if d is None:
+            return False
+        if d.kind == "assign" and d.rv["k"] == "use" and d.rv["op"]["k"] != "const":
+            return derives_from_mine(d.rv["op"], depth + 1)
+        if d.kind == "assign" and d.rv["k"] == "ref" and len(d.rv["place"]["p"]) == 1:
+            return derives_from_mine({"k": "copy", "place": {"l": d.rv["place"]["l"], "p": []}}, depth + 1)
+        if d.kind == "call" and re.search(r"Index(Mut)?<.*> for \[.*\]>::index(_mut)?$", d.call.callee_path):
+            return derives_from_mine(d.call.args[0], depth + 1)
+        return False
+
+    problems = []
+    seen = set()
+
+    def check_def(d, depth=0):
+        if depth > 6:
+            problems.append("return value flow too deep")
+            return
+        if d.kind == "assign":
+            rv = d.rv
+            if rv["k"] == "aggregate" and rv.get("agg") == "adt" and rv["adt"].endswith("::Result"):
+                if rv["variant_name"] == "Err":
+                    return
+                pr.at = (d.block, pr._idx(d))
+                try:
+                    x = pr.lin_op(rv["ops"][0])
+                finally:
+                    pr.at = None
+                if x is None:
+                    problems.append("Ok(n) with non-linear n at line %s" % body.blocks[d.block]["stmts"][d.idx].get("line"))
+                    return
+                if x.is_const() and x.c == 0:
+                    return
+                ok = False
+                for (okb, sop, n, cb) in pr.facts():
+                    if (okb == d.block or pr.cfg.dominates(okb, d.block)) and root_of(sop) == my_root:
+                        pr.at = (d.block, pr._idx(d))
+                        try:
+                            if pr.le(x, n) or (x.is_const() and x.c <= pr.lb_lin(n)):
+                                ok = True
+                        finally:
+                            pr.at = None
+                        if ok:
+                            break
+                if not ok:
+                    problems.append("Ok(%r) is not bounded by a checked length of the output slice (line %s)"
+                                    % (x, body.blocks[d.block]["stmts"][d.idx].get("line")))
+                return
+            if rv["k"] == "use" and rv["op"]["k"] in ("copy", "move") and not rv["op"]["place"]["p"]:
+                l = rv["op"]["place"]["l"]
+                if l in seen:
+                    return
+                seen.add(l)
+                for d2 in q.whole_defs(l):
+                    check_def(d2, depth + 1)
+                return
+            problems.append("return value built by %s" % rv["k"])
+            return
+        if d.kind == "call":
+            c = d.call
+            p = c.callee_path
+            if re.search(r"FromResidual<.*>>::from_residual$", p) or re.search(r"FromResidual<.*>>::from_residual$", c.full):
+                return      # error propagation
+            si2 = enc_slice_arg(p)
+            if si2 is not None and len(c.args) > si2:
+                if derives_from_mine(c.args[si2]):
+                    return
+                problems.append("forwards the result of %s on a different slice" % p)
+                return
+            if ENC_CTX_RX.search(p) and len(c.args) >= 2:
+                a = c.args[1]
+                outs = q.origins(a)
+                if len(outs) == 1 and outs[0].kind == "arg" and outs[0].local == 2 and is_ctx:
+                    return
+                if len(outs) == 1 and outs[0].kind == "place" and is_ctx and outs[0].place["l"] == 2:
+                    return
+                if len(outs) == 1 and outs[0].kind == "call" and CTX_NEW_RX.search(outs[0].call.callee_path) and derives_from_mine(outs[0].call.args[2]):
+                    return
+                problems.append("forwards the result of %s on a different context" % p)
+                return
+            problems.append("returns the result of %s" % p)
+            return
+        problems.append("unsupported definition of the return value")
+
+    for d in q.whole_defs(0):
+        check_def(d)
+    return problems
